@@ -24,6 +24,19 @@ theorem abortCloser_deadline (n : Nat) (c : Closer) : (abortCloser n c).deadline
 theorem abortCloser_id (n : Nat) (c : Closer) : (abortCloser n c).id = c.id := by
   unfold abortCloser; split <;> rfl
 
+theorem abortCloser_start (n : Nat) (c : Closer) : (abortCloser n c).start = c.start := by
+  unfold abortCloser; split <;> rfl
+
+theorem returnCloser_start (n : Nat) (c : Closer) : (returnCloser n c).start = c.start := by
+  unfold returnCloser; split <;> rfl
+
+theorem returnCloser_of_not_returned (n : Nat) (c : Closer) (h : ∀ a, c.st ≠ .returned a) :
+    (returnCloser n c).st = .returned n := by
+  unfold returnCloser
+  split
+  · rename_i a e; exact absurd e (h a)
+  · rfl
+
 theorem abortCloser_st (n : Nat) (c : Closer) :
     (c.st = .waiting ∧ c.deadline = n ∧ (abortCloser n c).st = .abortedWaiting) ∨
     ((c.st ≠ .waiting ∨ c.deadline ≠ n) ∧ (abortCloser n c).st = c.st) := by
@@ -44,6 +57,11 @@ structure CPre (s : S) : Prop where
   closersClosing : ∀ c ∈ s.closers, s.closing = true
   returnedAt : ∀ c ∈ s.closers, ∀ a, c.st = .returned a → a ≤ s.now
   abortsPast : ∀ a ∈ s.aborts, a ≤ s.now
+  startLe : ∀ c ∈ s.closers, c.start ≤ s.now
+  closedAtNone : s.closedAt = none → s.closedEvent = false
+  /-- a `close()` returns at the instant `_closed_event` is set, or at once when called later -/
+  closedAtSome : ∀ T, s.closedAt = some T →
+    s.closedEvent = true ∧ T ≤ s.now ∧ ∀ c ∈ s.closers, c.st = .returned (max c.start T)
 
 structure CW (s : S) : Prop extends CPre s where
   /-- every `abort()` brings `connection_lost` -/
@@ -56,10 +74,11 @@ theorem CInv.abortedLost {s : S} (h : CInv s) (c : Closer) (hc : c ∈ s.closers
     (ha : c.st = .abortedWaiting) : s.lost = true :=
   h.abortsLost (List.ne_nil_of_mem (h.aborted c hc ha).2)
 
-theorem CPre.mono {s s' : S} (h : CPre s) (hce : s'.closedEvent = s.closedEvent)
+theorem CPre.mono {s s' : S} (h : CPre s) (hca : s'.closedAt = s.closedAt)
+    (hce : s'.closedEvent = s.closedEvent)
     (hcl : s'.closers = s.closers) (hn : s'.now = s.now) (hab : s'.aborts = s.aborts)
     (hc : s.closing = true → s'.closing = true) : CPre s' := by
-  refine ⟨?_, ?_, ?_, ?_, ?_, ?_, ?_⟩
+  refine ⟨?_, ?_, ?_, ?_, ?_, ?_, ?_, ?_, ?_, ?_⟩
   · rw [hce, hcl]; exact h.closedAll
   · rw [hce, hcl]; exact h.openNone
   · rw [hcl, hn]; exact h.waitingLe
@@ -67,11 +86,15 @@ theorem CPre.mono {s s' : S} (h : CPre s) (hce : s'.closedEvent = s.closedEvent)
   · rw [hcl]; exact fun c hx => hc (h.closersClosing c hx)
   · rw [hcl, hn]; exact h.returnedAt
   · rw [hab, hn]; exact h.abortsPast
+  · rw [hcl, hn]; exact h.startLe
+  · rw [hca, hce]; exact h.closedAtNone
+  · rw [hca, hce, hcl, hn]; exact h.closedAtSome
 
-theorem CInv.mono {s s' : S} (h : CInv s) (hce : s'.closedEvent = s.closedEvent)
+theorem CInv.mono {s s' : S} (h : CInv s) (hca : s'.closedAt = s.closedAt)
+    (hce : s'.closedEvent = s.closedEvent)
     (hcl : s'.closers = s.closers) (hn : s'.now = s.now) (hab : s'.aborts = s.aborts)
     (hc : s.closing = true → s'.closing = true) (hl : s.lost = true → s'.lost = true) : CInv s' :=
-  { toCPre := h.toCPre.mono hce hcl hn hab hc
+  { toCPre := h.toCPre.mono hca hce hcl hn hab hc
     abortsLost := by rw [hab]; exact fun x => hl (h.abortsLost x)
     waitingLt := by rw [hcl, hn]; exact h.waitingLt }
 
@@ -79,7 +102,10 @@ theorem CInv.mono {s s' : S} (h : CInv s) (hce : s'.closedEvent = s.closedEvent)
 theorem settle_cpre {s : S} (h : CPre s) : CPre s.settle := by
   unfold S.settle
   split
-  · refine ⟨?_, ?_, ?_, ?_, ?_, ?_, h.abortsPast⟩
+  · rename_i hcond
+    have hce : s.closedEvent = false := by
+      simp only [Bool.and_eq_true, Bool.not_eq_true'] at hcond; exact hcond.1.2
+    refine ⟨?_, ?_, ?_, ?_, ?_, ?_, h.abortsPast, ?_, ?_, ?_⟩
     · intro _ c hc
       simp only [List.mem_map] at hc
       obtain ⟨y, _, rfl⟩ := hc
@@ -105,6 +131,20 @@ theorem settle_cpre {s : S} (h : CPre s) : CPre s.settle := by
       rcases returnCloser_at _ _ _ ha with e | e
       · exact h.returnedAt y hy a e
       · exact Nat.le_of_eq e
+    · intro c hc
+      simp only [List.mem_map] at hc
+      obtain ⟨y, hy, rfl⟩ := hc
+      rw [returnCloser_start]; exact h.startLe y hy
+    · intro hc; simp at hc
+    · intro T hT
+      simp only [Option.some.injEq] at hT
+      subst hT
+      refine ⟨rfl, Nat.le_refl _, ?_⟩
+      intro c hc
+      simp only [List.mem_map] at hc
+      obtain ⟨y, hy, rfl⟩ := hc
+      rw [returnCloser_start, returnCloser_of_not_returned _ _ (h.openNone hce y hy),
+          Nat.max_eq_right (h.startLe y hy)]
   · exact h
 
 theorem settle_waitingLt {s : S} (h : ∀ c ∈ s.closers, c.st = .waiting → s.now < c.deadline) :
@@ -131,7 +171,7 @@ theorem lose_cinv {s : S} (h : CPre s)
     exact { toCPre := h, abortsLost := fun _ => hl, waitingLt := hw }
   · unfold S.lose
     simp only [hl, Bool.false_eq_true, ↓reduceIte]
-    have h1 : CPre s.teardown := h.mono rfl rfl rfl rfl (fun _ => rfl)
+    have h1 : CPre s.teardown := h.mono rfl rfl rfl rfl rfl (fun _ => rfl)
     exact { toCPre := settle_cpre h1
             abortsLost := by intro _; simp [S.teardown]
             waitingLt := settle_waitingLt (s := s.teardown) hw }
@@ -139,7 +179,8 @@ theorem lose_cinv {s : S} (h : CPre s)
 theorem doAbort_cinv {s : S} (h : CInv s) : CInv s.doAbort := by
   unfold S.doAbort
   apply lose_cinv
-  · refine ⟨h.closedAll, h.openNone, h.waitingLe, ?_, fun _ _ => rfl, h.returnedAt, ?_⟩
+  · refine ⟨h.closedAll, h.openNone, h.waitingLe, ?_, fun _ _ => rfl, h.returnedAt, ?_,
+      h.startLe, h.closedAtNone, h.closedAtSome⟩
     · intro c hc ha
       exact ⟨(h.aborted c hc ha).1, List.mem_append_left _ (h.aborted c hc ha).2⟩
     · intro a ha
@@ -152,29 +193,29 @@ theorem doAbort_cinv {s : S} (h : CInv s) : CInv s.doAbort := by
 theorem transportClose_cinv {s : S} (h : CInv s) : CInv s.transportClose := by
   rcases transportClose_cases s with ⟨_, e⟩ | ⟨_, _, e⟩ | ⟨_, _, e⟩ <;> rw [e]
   · exact h
-  · exact h.mono rfl rfl rfl rfl (fun _ => rfl) id
-  · exact lose_cinv (h.toCPre.mono rfl rfl rfl rfl (fun _ => rfl)) h.waitingLt
+  · exact h.mono rfl rfl rfl rfl rfl (fun _ => rfl) id
+  · exact lose_cinv (h.toCPre.mono rfl rfl rfl rfl rfl (fun _ => rfl)) h.waitingLt
 
 theorem startHandler_cinv {s : S} (h : CInv s) (i : Nat) (k : HKind) :
     CInv (s.startHandler i k) := by
   unfold S.startHandler
   cases k with
-  | quick => exact h.mono rfl rfl rfl rfl id id
-  | slow => exact h.mono rfl rfl rfl rfl id id
-  | stubborn r => exact h.mono rfl rfl rfl rfl id id
+  | quick => exact h.mono rfl rfl rfl rfl rfl id id
+  | slow => exact h.mono rfl rfl rfl rfl rfl id id
+  | stubborn r => exact h.mono rfl rfl rfl rfl rfl id id
   | closer fa =>
     simp only []
     split
-    · exact doAbort_cinv (h.mono rfl rfl rfl rfl id id)
-    · exact transportClose_cinv (h.mono rfl rfl rfl rfl id id)
+    · exact doAbort_cinv (h.mono rfl rfl rfl rfl rfl id id)
+    · exact transportClose_cinv (h.mono rfl rfl rfl rfl rfl id id)
 
 /-- `close()` on a connection that is already closed returns at once -/
 theorem appClose_closed_cinv {s : S} (h : CInv s) (hce : s.closedEvent = true)
     (hcl : s.closing = true) (c fa : Nat) :
-    CInv { s with closers := s.closers ++ [⟨c, s.now + fa, .returned s.now⟩] } := by
+    CInv { s with closers := s.closers ++ [⟨c, s.now, s.now + fa, .returned s.now⟩] } := by
   refine { closedAll := ?_, openNone := ?_, waitingLe := ?_, aborted := ?_, closersClosing := ?_,
            returnedAt := ?_, abortsPast := h.abortsPast, abortsLost := h.abortsLost,
-           waitingLt := ?_ }
+           waitingLt := ?_, startLe := ?_, closedAtNone := h.closedAtNone, closedAtSome := ?_ }
   · intro _ x hx
     simp only [List.mem_append, List.mem_singleton] at hx
     rcases hx with hx | rfl
@@ -197,6 +238,20 @@ theorem appClose_closed_cinv {s : S} (h : CInv s) (hce : s.closedEvent = true)
     rcases hx with hx | rfl
     · exact h.returnedAt x hx a ha
     · simp at ha; exact Nat.le_of_eq ha.symm
+  · intro x hx
+    simp only [List.mem_append, List.mem_singleton] at hx
+    rcases hx with hx | rfl
+    · exact h.startLe x hx
+    · exact Nat.le_refl _
+  · intro T hT
+    obtain ⟨h1, h2, h3⟩ := h.closedAtSome T hT
+    refine ⟨h1, h2, ?_⟩
+    intro x hx
+    simp only [List.mem_append, List.mem_singleton] at hx
+    rcases hx with hx | rfl
+    · exact h3 x hx
+    · show CStatus.returned s.now = CStatus.returned (max s.now T)
+      rw [Nat.max_eq_left h2]
   · intro x hx hw
     simp only [List.mem_append, List.mem_singleton] at hx
     rcases hx with hx | rfl
@@ -206,7 +261,7 @@ theorem appClose_closed_cinv {s : S} (h : CInv s) (hce : s.closedEvent = true)
 /-- a new task enters `close(force_after)`; `st`/`deadline`/`aborts'`/`closing` describe the
 moment just after its `transport.close()` (and, for `force_after = 0`, its `abort()`) -/
 theorem addCloser_cpre {s : S} (h : CInv s) (hce : s.closedEvent = false) (x : Closer)
-    (ab : List Nat)
+    (ab : List Nat) (hst : x.start ≤ s.now)
     (hx : (x.st = .waiting ∧ s.now < x.deadline ∧ ab = s.aborts) ∨
           (x.st = .abortedWaiting ∧ x.deadline = s.now ∧ ab = s.aborts ++ [s.now])) :
     CPre { s with closers := s.closers ++ [x], aborts := ab, closing := true } ∧
@@ -215,7 +270,7 @@ theorem addCloser_cpre {s : S} (h : CInv s) (hce : s.closedEvent = false) (x : C
     intro a ha; rcases hx with ⟨_, _, e⟩ | ⟨_, _, e⟩ <;> subst e
     · exact ha
     · exact List.mem_append_left _ ha
-  refine ⟨⟨?_, ?_, ?_, ?_, fun _ _ => rfl, ?_, ?_⟩, ?_⟩
+  refine ⟨⟨?_, ?_, ?_, ?_, fun _ _ => rfl, ?_, ?_, ?_, fun _ => hce, ?_⟩, ?_⟩
   · intro hc; simp [hce] at hc
   · intro _ y hy a
     simp only [List.mem_append, List.mem_singleton] at hy
@@ -248,6 +303,14 @@ theorem addCloser_cpre {s : S} (h : CInv s) (hce : s.closedEvent = false) (x : C
       rcases ha with ha | rfl
       · exact h.abortsPast a ha
       · exact Nat.le_refl _
+  · intro y hy
+    simp only [List.mem_append, List.mem_singleton] at hy
+    rcases hy with hy | rfl
+    · exact h.startLe y hy
+    · exact hst
+  · intro T hT
+    have := (h.closedAtSome T hT).1
+    simp [hce] at this
   · intro y hy hw
     simp only [List.mem_append, List.mem_singleton] at hy
     rcases hy with hy | rfl
@@ -261,15 +324,20 @@ theorem addCloser_cpre {s : S} (h : CInv s) (hce : s.closedEvent = false) (x : C
 theorem bump_cw {s : S} (h : CInv s) : CW s.bump := by
   refine { closedAll := h.closedAll, openNone := h.openNone, waitingLe := ?_, aborted := ?_,
            closersClosing := h.closersClosing, returnedAt := ?_, abortsPast := ?_,
-           abortsLost := h.abortsLost }
+           abortsLost := h.abortsLost, startLe := ?_, closedAtNone := h.closedAtNone,
+           closedAtSome := ?_ }
   · intro c hc hw; exact Nat.succ_le_of_lt (h.waitingLt c hc hw)
   · intro c hc ha
     exact ⟨Nat.le_succ_of_le (h.aborted c hc ha).1, (h.aborted c hc ha).2⟩
   · intro c hc a ha; exact Nat.le_succ_of_le (h.returnedAt c hc a ha)
   · intro a ha; exact Nat.le_succ_of_le (h.abortsPast a ha)
+  · intro c hc; exact Nat.le_succ_of_le (h.startLe c hc)
+  · intro T hT
+    exact ⟨(h.closedAtSome T hT).1, Nat.le_succ_of_le (h.closedAtSome T hT).2.1,
+           (h.closedAtSome T hT).2.2⟩
 
 theorem expire_cw {s : S} (h : CW s) : CW s.expire :=
-  { toCPre := h.toCPre.mono rfl rfl rfl rfl id, abortsLost := h.abortsLost }
+  { toCPre := h.toCPre.mono rfl rfl rfl rfl rfl id, abortsLost := h.abortsLost }
 
 theorem dueCount_pos_of_closer {s : S} (c : Closer) (hc : c ∈ s.closers)
     (hd : closerDue s.now c = true) : 0 < s.dueCount := by
@@ -284,7 +352,7 @@ theorem fireClosers_cinv {s : S} (h : CW s) : CInv s.fireClosers := by
       CPre { s with closers := s.closers.map (abortCloser s.now),
                     aborts := s.aborts ++ List.replicate s.dueCount s.now, closing := cl } := by
     intro cl hcl
-    refine ⟨?_, ?_, ?_, ?_, ?_, ?_, ?_⟩
+    refine ⟨?_, ?_, ?_, ?_, ?_, ?_, ?_, ?_, h.closedAtNone, ?_⟩
     · intro hce c hc
       simp only [List.mem_map] at hc
       obtain ⟨y, hy, rfl⟩ := hc
@@ -331,6 +399,20 @@ theorem fireClosers_cinv {s : S} (h : CW s) : CInv s.fireClosers := by
       rcases ha with ha | ha
       · exact h.abortsPast a ha
       · exact Nat.le_of_eq (List.eq_of_mem_replicate ha)
+    · intro c hc
+      simp only [List.mem_map] at hc
+      obtain ⟨y, hy, rfl⟩ := hc
+      rw [abortCloser_start]; exact h.startLe y hy
+    · intro T hT
+      obtain ⟨h1, h2, h3⟩ := h.closedAtSome T hT
+      refine ⟨h1, h2, ?_⟩
+      intro c hc
+      simp only [List.mem_map] at hc
+      obtain ⟨y, hy, rfl⟩ := hc
+      rw [abortCloser_start]
+      rcases abortCloser_st s.now y with ⟨e, _⟩ | ⟨_, e⟩
+      · simp [h3 y hy] at e
+      · rw [e]; exact h3 y hy
   have hlt : ∀ c ∈ s.closers.map (abortCloser s.now), c.st = .waiting → s.now < c.deadline := by
     intro c hc hw
     simp only [List.mem_map] at hc
@@ -354,7 +436,7 @@ theorem fireClosers_cinv {s : S} (h : CW s) : CInv s.fireClosers := by
 theorem tick_cinv {s : S} (h : CInv s) : CInv s.tick := by
   unfold S.tick
   have h1 := fireClosers_cinv (expire_cw (bump_cw h))
-  exact settle_cinv (h1.mono rfl rfl rfl rfl id id)
+  exact settle_cinv (h1.mono rfl rfl rfl rfl rfl id id)
 
 theorem advance_cinv (n : Nat) : ∀ {s : S}, CInv s → CInv (s.advance n) := by
   induction n with
